@@ -70,23 +70,41 @@ def run(events):
     return out, p
 
 
-def judge_standalone(kind, L, pattern):
+def with_gaps(evs, gap):
+    """insert unrelated same-thread records (undecoded, unknown, decodable NONE, and a complete decodable START/END pair)
+    between the chunk records; gap = None | kind."""
+    if gap is None or len(evs) < 2:
+        return evs
+    tid = evs[0].tid
+    out = [evs[0]]
+    for e in evs[1:]:
+        if gap == 'pair':
+            out += [E.ev('BSC_getpid', 1, (1, 2, 3, 4), tid=tid), E.ev('BSC_getpid', 2, (0, 7, 0, 0), tid=tid)]
+        else:
+            out.append(unrelated(gap, tid=tid))
+        out.append(e)
+    return out
+
+
+def judge_standalone(kind, L, pattern, gap=None):
     txt = text(L, pattern)
     bad = []
     if kind == 'lookup':
-        evs = lookup_events(0x4142434445464748, txt)
+        evs = with_gaps(lookup_events(0x4142434445464748, txt), gap)
         out, p = run(evs)
+        out = [t for t in out if type(t).__name__ not in ('BscGetpid', 'MachWait')]
         lk = [t for t in out if type(t).__name__ == 'VfsLookup']
         if len(out) != 1 or len(lk) != 1:
             return [('continuation-record-produced-its-own-trace:lookup' if len(out) > 1 else 'lookup-trace-missing',
                      {'n_records': len(evs), 'traces': [str(t) for t in out][:4]})]
         if lk[0].path != txt or lk[0].vnode_id != 0x4142434445464748:
             bad.append(('lookup-text-or-vnode-wrong', {'got': lk[0].path, 'vnode': lk[0].vnode_id, 'len': L}))
-        if len(lk[0].ktraces) != len(evs):
+        if len(lk[0].ktraces) < len(lookup_events(0, txt)):
             bad.append(('lookup-window-incomplete', {'got': len(lk[0].ktraces), 'exp': len(evs)}))
     elif kind == 'gstring':
-        evs = gstring_events(777, txt)
+        evs = with_gaps(gstring_events(777, txt), gap)
         out, p = run(evs)
+        out = [t for t in out if type(t).__name__ not in ('BscGetpid', 'MachWait')]
         gs = [t for t in out if type(t).__name__ == 'TraceStringGlobal']
         if len(out) != 1 or len(gs) != 1:
             return [('continuation-record-produced-its-own-trace:global-string' if len(out) > 1 else 'global-string-trace-missing',
@@ -98,8 +116,9 @@ def judge_standalone(kind, L, pattern):
             bad.append(('global-strings-table-wrong', {'got': repr(p.global_strings)[:200], 'exp_keys': list(exp)}))
     else:
         code = 'TRACE_STRING_THREADNAME' if kind == 'threadname' else 'TRACE_STRING_THREADNAME_PREV'
-        evs = threadname_events(txt, tid=5, code=code)
+        evs = with_gaps(threadname_events(txt, tid=5, code=code), gap)
         out, p = run(evs)
+        out = [t for t in out if type(t).__name__ not in ('BscGetpid', 'MachWait')]
         if len(out) != 1:
             return [('thread-name-trace-count', {'n': len(out), 'n_records': len(evs)})]
         if out[0].name != txt:
@@ -158,7 +177,7 @@ class C08(Check):
     level = 'model_checking'
     rule = ('texts of every byte length 0..184 x 5 content patterns (ASCII; 2-byte and 3-byte UTF-8 characters placed to '
             'straddle record boundaries; all separators; blanks and dots) chunked kernel-style: (a) stand-alone VFS_LOOKUP, TRACE_STRING_GLOBAL (lengths '
-            '0..184) and THREADNAME / THREADNAME_PREV (0..63) record sequences - exactly one trace with exactly the text (and '
+            '0..184) and THREADNAME / THREADNAME_PREV (0..63) record sequences, bare and with an unrelated same-thread record (undecoded, unknown, decodable NONE, a complete START/END pair) in every gap between the chunk records - exactly one trace with exactly the text (and '
             'vnode id / string id), tables hold exactly the announced text; (b) every path-taking BSD decoder (66 names, frozen '
             'slot table) x one lookup of every length x patterns; x k in {0,1,2,3,6} lookups of boundary lengths '
             '{0,1,23,24,25,55,56,57,184} x an unrelated same-thread record (undecoded, unknown, decodable NONE) in every gap. '
@@ -185,15 +204,16 @@ class C08(Check):
             maxl = 184 if kind in ('lookup', 'gstring') else 63
             for L in range(maxl + 1):
                 for pattern in range(NPAT):
-                    try:
-                        bad = judge_standalone(kind, L, pattern)
-                    except Exception as ex:
-                        bad = [('raised:' + type(ex).__name__, {'error': repr(ex)[:200]})]
                     first = {'lookup': 24, 'gstring': 16}.get(kind, 32)
                     nrec = 1 if L <= first else 1 + -(-(L - first) // 32)
-                    acc.case(nontrivial=nrec >= 2, transitions=nrec, state=h64((kind, nrec)), outcome=h64((kind, nrec, not bad)))
-                    for sig, detail in bad:
-                        acc.violation(sig, {'kind': 'standalone', 'what': kind, 'len': L, 'pattern': pattern}, detail)
+                    for gap in ((None,) if nrec < 2 else (None, 'K', 'U', 'W', 'pair')):
+                        try:
+                            bad = judge_standalone(kind, L, pattern, gap)
+                        except Exception as ex:
+                            bad = [('raised:' + type(ex).__name__, {'error': repr(ex)[:200]})]
+                        acc.case(nontrivial=nrec >= 2, transitions=nrec, state=h64((kind, nrec)), outcome=h64((kind, nrec, not bad)))
+                        for sig, detail in bad:
+                            acc.violation(sig, {'kind': 'standalone', 'what': kind, 'len': L, 'pattern': pattern, 'gap': gap}, detail)
                     if not bad and nrec >= 3 and acc.want_sample():
                         acc.sample({'kind': kind, 'len': L, 'pattern': pattern, 'records': nrec})
         elif desc[0] == 'enc1':
@@ -228,7 +248,7 @@ class C08(Check):
 
     def replay(self, case):
         if case['kind'] == 'standalone':
-            return judge_standalone(case['what'], case['len'], case['pattern'])
+            return judge_standalone(case['what'], case['len'], case['pattern'], case.get('gap'))
         return judge_enclosed(case['decoder'], case['texts'], {int(k): v for k, v in case['gaps'].items()})
 
 
